@@ -201,3 +201,41 @@ V("C12-generic-writes-final-path","C12",FG,"		tmpPath := p + \"#\" + strconv.For
 V("C12-rename-on-write-error","C12",FG,"		return fmt.Errorf(\"write data into file %q: %w\", tmpPath, err)\n	}\n\n	err = os.Rename(tmpPath, p)","		if !errors.Is(err, common.ErrNoSpace) {\n			return fmt.Errorf(\"write data into file %q: %w\", tmpPath, err)\n		}\n	}\n\n	err = os.Rename(tmpPath, p)",rule="C12.R1")
 V("C12-cleaner-other-separator","C12","pkg/local_object_storage/blobstor/fstree/fstree.go","			if !d.IsDir() && strings.Contains(d.Name(), \"#\") {","			if !d.IsDir() && strings.Contains(d.Name(), \"~\") {",rule="C12.R3")
 V("C12-link-eperm-tolerated","C12",FW,"			if errors.Is(err, unix.EEXIST) {\n				// https://github.com/nspcc-dev/neofs-node/issues/2563\n				err = nil\n			}","			if errors.Is(err, unix.EEXIST) || errors.Is(err, unix.EPERM) {\n				// https://github.com/nspcc-dev/neofs-node/issues/2563\n				err = nil\n			}",rule="C12.R4")
+
+IC="pkg/innerring/processors/container/"
+V("C37-revert-fix-v2-verb","C37",IC+"common.go","""	// zero v.idContainer (container creation) is matched by wildcard contexts only
+	if !tok.AssertContainer(v.verbV2, v.idContainer) {
+		if v.idContainerSet {
+			return errWrongCID
+		}
+		return errWrongSessionVerb
+	}
+""","""	if v.idContainerSet {
+		if !tok.AssertContainer(v.verbV2, v.idContainer) {
+			return errWrongCID
+		}
+	}
+""",rule="C37.R3")
+V("C37-delete-approved-on-check-error","C37",IC+"process_container.go","""	err := cp.checkDeleteContainer(e)
+	if err != nil {
+		cp.log.Error("delete container check failed",
+			zap.Error(err),
+		)
+
+		return
+	}
+""","""	err := cp.checkDeleteContainer(e)
+	if err != nil {
+		cp.log.Error("delete container check failed",
+			zap.Error(err),
+		)
+	}
+""",rule="C37.R1")
+V("C37-issuer-check-dropped-v1","C37",IC+"common.go","		if !session.IssuedBy(tok, v.ownerContainer) {\n			return errors.New(\"owner differs with token owner\")\n		}\n","",rule="C37.R3")
+V("C37-lifetime-error-ignored","C37",IC+"common.go","		err = cp.checkTokenLifetime(tok)\n		if err != nil {\n			return fmt.Errorf(\"check session lifetime: %w\", err)\n		}","		_ = cp.checkTokenLifetime(tok)",rule="C37.R3")
+V("C37-seteacl-verb-delete","C37",IC+"process_eacl.go","		verbV2:          sessionv2.VerbContainerSetEACL,","		verbV2:          sessionv2.VerbContainerDelete,",rule="C37.R4")
+V("C37-eacl-nonextendable-accepted","C37",IC+"process_eacl.go","	if !cnr.BasicACL().Extendable() {\n		return errors.New(\"ACL extension disabled by container basic ACL\")\n	}","	if !cnr.BasicACL().Extendable() && len(req.SessionToken) == 0 {\n		return errors.New(\"ACL extension disabled by container basic ACL\")\n	}",rule="C37.R2")
+V("C37-system-role-allowed","C37",IC+"process_eacl.go","			if target.Role() == eacl.RoleSystem {\n				return errors.New(\"it is prohibited to modify system access\")\n			}","			if target.Role() == eacl.RoleSystem && record.Action() == eacl.ActionDeny {\n				return errors.New(\"it is prohibited to modify system access\")\n			}",rule="C37.R2",expect="fire")
+V("C37-unknown-sysattr-skipped","C37",IC+"process_container.go","			if _, ok := allowedSystemAttributes[k]; !ok {\n				return fmt.Errorf(\"system attribute %s is not allowed\", k)\n			}","			if _, ok := allowedSystemAttributes[k]; !ok {\n				continue\n			}",rule="C37.R2")
+V("C37-policy-verify-dropped","C37",IC+"process_container.go","	if err = cnr.PlacementPolicy().Verify(); err != nil {\n		return fmt.Errorf(\"invalid storage policy: %w\", err)\n	}","	if err = cnr.PlacementPolicy().Verify(); err != nil && domainZone == \"\" {\n		return fmt.Errorf(\"invalid storage policy: %w\", err)\n	}",rule="C37.R2")
+V("C37-create-with-unchecked-eacl","C37",IC+"process_container.go","		err = cp.checkSetEACL(*req.EACLTable, table, id, cnr)\n		if err != nil {","		err = cp.checkSetEACL(*req.EACLTable, table, id, cnr)\n		if err != nil && len(req.SessionToken) == 0 {",rule="C37.R1")
